@@ -96,6 +96,7 @@ struct Block
 {
 	size_t size;
 	uint64_t serial;
+	const char* kind; // classified when the block is first obtained; a block that is grown keeps its kind (sizes of different kinds can coincide)
 };
 static std::map<void*, Block> g_live;
 static uint64_t g_serial = 0;
@@ -127,7 +128,7 @@ static void* on_realloc_cb(void* ptr, size_t size)
 			return NULL;
 		void* p = malloc(size);
 		memset(p, g_fill, size);
-		g_live[p] = Block{size, g_serial++};
+		g_live[p] = Block{size, g_serial++, kind_of(size)};
 		if (g_allocev)
 			emit("A %s", kind_of(size));
 		return p;
@@ -142,7 +143,7 @@ static void* on_realloc_cb(void* ptr, size_t size)
 	if (size == 0)
 	{
 		if (g_allocev)
-			emit("F %s", kind_of(it->second.size));
+			emit("F %s", it->second.kind);
 		g_live.erase(it);
 		free(ptr);
 		return NULL;
@@ -150,14 +151,15 @@ static void* on_realloc_cb(void* ptr, size_t size)
 	// grow: new block, copy, fill the rest
 	size_t old = it->second.size;
 	uint64_t serial = it->second.serial;
+	const char* kind = it->second.kind;
 	void* p = malloc(size);
 	memset(p, g_fill, size);
 	memcpy(p, ptr, old < size ? old : size);
 	g_live.erase(it);
 	free(ptr);
-	g_live[p] = Block{size, serial};
+	g_live[p] = Block{size, serial, kind};
 	if (g_allocev)
-		emit("R %s", kind_of(size));
+		emit("R %s", kind);
 	return p;
 }
 
